@@ -1392,6 +1392,42 @@ func (c *Ctx) muxPatternsCannotCollide() {
 				}
 			}
 			for _, r := range fromCfg {
+				// the value registered is the value validation saw: a pattern computed from the configured
+				// one (trimmed, given a leading slash) can equal a constant pattern although the
+				// configured text does not
+				transformed := ""
+				seenT := map[ssa.Value]bool{}
+				var walkT func(v ssa.Value, d int)
+				walkT = func(v ssa.Value, d int) {
+					if v == nil || seenT[v] || d > 10 || transformed != "" {
+						return
+					}
+					seenT[v] = true
+					switch x := v.(type) {
+					case *ssa.Call:
+						transformed = p.InstrPos(x) + ": " + CalleeName(x)
+					case *ssa.BinOp:
+						transformed = p.InstrPos(x) + ": string " + x.Op.String()
+					case *ssa.Phi:
+						for _, e := range x.Edges {
+							walkT(e, d+1)
+						}
+					case *ssa.UnOp:
+						if a, ok := x.X.(*ssa.Alloc); ok && a.Referrers() != nil {
+							for _, rr := range *a.Referrers() {
+								if st, ok := rr.(*ssa.Store); ok && st.Addr == ssa.Value(a) {
+									walkT(st.Val, d+1)
+								}
+							}
+						}
+					}
+				}
+				walkT(r.pattern, 0)
+				if transformed != "" {
+					n++
+					c.Fail(rule, p.FuncKey(fn)+"/registered-as-validated", p.InstrPos(r.at), "the pattern registered on the ServeMux is computed from the configured one ("+transformed+") after validation looked at the configured text: a value validation accepted (\"/health/\", \"health\") can become a pattern that is registered twice, and the mux panics at start-up")
+					continue
+				}
 				// which configuration field
 				field := ""
 				c.flowsFrom(r.pattern, func(v ssa.Value) bool {
